@@ -57,7 +57,10 @@ AccountsX == Accounts \o AccountsExtra \o AccountsGen       \* generated names s
 QuotedGen == << P0("a b"), P0("a1"), P0("1a"), P0("x$"), P0("$x"), P0("a-b"), P0("a.b"), P0("é"), P("😀", 1), P0("1"), P0("-"), P0("US$"),
                \* symbols that read as ONE commodity only with their quotes on at least one side of the number: a lower-case or
                \* mixed-case word on the left, a currency sign the lexer does not list
-               P0("eur"), P0("Chf"), P0("руб"), P0("₹") >>
+               P0("eur"), P0("Chf"), P0("руб"), P0("₹"),
+               \* upper-case words outside ASCII: the lexer reads an unquoted commodity on the left of a number only over A-Z, so
+               \* these need their quotes there although they look like USD (seeded change C05-L dropped them)
+               P0("РУБ"), P0("É"), P0("ΔΡΧ") >>
 CommoditiesGen == [k \in 1..Len(QuotedGen) |-> [sym |-> QuotedGen[k].s, txt |-> [s |-> "\"" \o QuotedGen[k].s \o "\"", a |-> QuotedGen[k].a], k |-> "quoted"]]
 CommoditiesX == Commodities \o CommoditiesGen
 
